@@ -23,12 +23,12 @@ TECHNIQUE = "TLA+ spec + committed contract table + TLC trace validation of one 
 DESIGN_REF = "DESIGN.md section 6 C16"
 
 TABLE = os.path.join(VERIF, "spec", "NullGuardTable.json")
-OBJ_TYPES = {"spif_iterator_t", "spif_str_t", "spif_ustr_t", "spif_mbuff_t", "spif_obj_t", "spif_objpair_t", "spif_tok_t", "spif_url_t", "spif_regexp_t",
+OBJ_TYPES = {"spif_module_t", "spif_pthreads_t", "spif_pthreads_mutex_t", "spif_pthreads_condition_t", "spif_iterator_t", "spif_str_t", "spif_ustr_t", "spif_mbuff_t", "spif_obj_t", "spif_objpair_t", "spif_tok_t", "spif_url_t", "spif_regexp_t",
              "spif_socket_t", "spif_list_t", "spif_array_t", "spif_linked_list_t", "spif_dlinked_list_t", "spif_array_iterator_t",
              "spif_linked_list_iterator_t", "spif_dlinked_list_iterator_t", "spif_linked_list_item_t", "spif_dlinked_list_item_t"}
 CHAR_TYPES = {"spif_charptr_t", "const spif_charptr_t", "char *", "const char *"}
-INT_RET = {"spif_stridx_t", "spif_ustridx_t", "spif_memidx_t", "spif_listidx_t", "int", "long", "spif_int32_t"}
-UINT_RET = {"size_t": "(size_t) -1", "unsigned long": "(unsigned long) -1", "spif_uint32_t": "(spif_uint32_t) -1"}
+INT_RET = {"spif_tls_handle_t", "spif_stridx_t", "spif_ustridx_t", "spif_memidx_t", "spif_listidx_t", "int", "long", "spif_int32_t"}
+UINT_RET = {"unsigned char": "(unsigned char) -1", "size_t": "(size_t) -1", "unsigned long": "(unsigned long) -1", "spif_uint32_t": "(spif_uint32_t) -1"}
 
 
 def ctype(t):
@@ -58,6 +58,12 @@ def factory(row, t, n):
               "spif_objpair_t": "ng_pair()", "spif_tok_t": "ng_tok()", "spif_url_t": "ng_url()", "spif_regexp_t": "ng_regexp()",
               "spif_socket_t": "ng_socket()", "spif_list_t": "ng_list(0)", "spif_byteptr_t": "ng_bytes()", "FILE *": "ng_file()",
               "spif_class_t": "SPIF_CLASS_VAR(str)", "regex_t **": "ng_rexp_slot()", "spif_charptr_t *": "ng_strlist()",
+              "spifmem_memrec_t *": "ng_memrec()", "spif_module_t": "spif_module_new()", "spif_pthreads_t": "spif_pthreads_new()",
+              "spif_pthreads_mutex_t": "spif_pthreads_mutex_new()", "spif_pthreads_condition_t": "spif_pthreads_condition_new()",
+              "spif_thread_func_t": "ng_thread_func", "spif_thread_data_t": "(spif_thread_data_t) ng_bytes()",
+              "spif_condition_t": "(spif_condition_t) spif_pthreads_condition_new()", "spif_tls_handle_t": "0",
+              "ctx_handler_t": "ng_ctx_handler", "spifconf_func_ptr_t": "ng_conf_builtin", "char **": "ng_argv()",
+              "spif_ptr_t": "(spif_ptr_t) ng_bytes()", "unsigned char": "1",
               "void *": "(void *) ng_bytes()", "const void *": "(const void *) ng_bytes()", "spif_char_t": "'a'", "size_t": "4",
               "spif_uint8_t": "1", "unsigned short": "80", "spif_sockport_t": "80", "long": "10", "unsigned long": "10",
               "spif_int32_t": "2", "spif_stridx_t": "1", "spif_ustridx_t": "1", "spif_memidx_t": "1", "spif_listidx_t": "1",
@@ -150,9 +156,14 @@ def gen_source(rows, path):
         f.write("\n};\n#define NG_MAIN\n#include \"null_guard_rt.h\"\n")
 
 
+TABLE_EXTRA = {}
+
+
 def load_table():
     t = json.load(open(TABLE))
     rows = t["rows"]
+    TABLE_EXTRA["no_pointer_parameters"] = list(t.get("no_pointer_parameters", []))
+    TABLE_EXTRA["excluded"] = list(t.get("excluded", []))
     twin = open(os.path.join(VERIF, "spec", "NullGuardTable.tla")).read()
     n = len(re.findall(r"\[id \|-> \d+,", twin))
     if n != len(rows):
@@ -165,18 +176,21 @@ def load_table():
 
 def header_scan(ctx, rows):
     """Entry points declared in include/ that the table does not know: UNCLASSIFIED (informational)."""
-    known = {r["func"] for r in rows}
+    known = {r["func"] for r in rows} | set(TABLE_EXTRA.get("no_pointer_parameters", [])) | {e["name"] for e in TABLE_EXTRA.get("excluded", [])}
     decl = {}
     hs = [os.path.join(ctx.repo, "include", "libast.h")] + sorted(glob.glob(os.path.join(ctx.repo, "include", "libast", "*.h")))
     for h in hs:
         txt = re.sub(r"/\*.*?\*/", "", open(h, errors="replace").read(), flags=re.S)
         for m in re.finditer(r"^extern\s+[^;(]*?\b(\w+)\s*\(([^;]*?)\)\s*;", txt, re.M | re.S):
-            decl[m.group(1)] = (os.path.basename(h), " ".join(m.group(2).split()))
+            if not re.fullmatch(r"[A-Z_0-9]+", m.group(1)):        # SPIF_CLASS_VAR(x) ...: variable declarations through macros
+                decl[m.group(1)] = (os.path.basename(h), " ".join(m.group(2).split()))
     unc = sorted(n for n in decl if n not in known)
     withptr = [n for n in unc if re.search(r"\*|_t\b", decl[n][1]) and decl[n][1] != "void"]
     gone = sorted(n for n in known if n not in decl and any(r["func"] == n and r["via"] == "direct" for r in rows))
     ctx.cov["unclassified_entry_points"] = {"count": len(unc), "with_parameters": len(withptr), "names": unc[:400]}
     ctx.cov["table_functions_no_longer_declared"] = gone
+    ctx.cov["entry_points_without_pointer_parameters"] = len(TABLE_EXTRA.get("no_pointer_parameters", []))
+    ctx.cov["entry_points_excluded_with_reason"] = {e["name"]: e["reason"] for e in TABLE_EXTRA.get("excluded", [])}
     for n in unc[:12]:
         print("UNCLASSIFIED: %s (%s) is declared in include/ but has no row in spec/NullGuardTable" % (n, decl[n][0]))
     if len(unc) > 12:
